@@ -273,6 +273,17 @@ fn prefix_points(len: usize, exhaustive: bool) -> Vec<usize> {
                 }
                 p += step;
             }
+            // format boundaries the page thinning would skip: every 64 KiB boundary +-1 (the .idx update
+            // section starts on one: a file cut exactly there still parses as "no pending updates")
+            let mut b = 0x1_0000usize;
+            while b <= len {
+                for x in [b - 1, b, b + 1] {
+                    if x < len {
+                        v.insert(x);
+                    }
+                }
+                b += 0x1_0000;
+            }
         }
     }
     v.into_iter().collect()
